@@ -9,10 +9,10 @@ PAYLOADS = ["word", "spaces", "padded", "newline", "quotes", "eq", "dollar", "bs
 def scenarios(tier, seed):
     rnd = random.Random(seed)
     out, i = [], 0
-    def add(params, at_start, payload, noise=False):
+    def add(params, at_start, payload, noise=False, stop=False):
         nonlocal i
         i += 1
-        out.append({"id": i, "params": params, "atStart": at_start, "payload": payload, "errNoise": noise})
+        out.append({"id": i, "params": params, "atStart": at_start, "payload": payload, "errNoise": noise, "stop": stop})
     # pinned reproductions of the open findings
     add([{"name": "", "class": "bare"}], True, "word", True)            # F-11c: stderr ends up in the captured value
     add([{"name": "", "class": "eq"}], False, "word")                   # F-11d: quoted positional value containing '='
@@ -20,6 +20,9 @@ def scenarios(tier, seed):
         for name in ["", "X"]:
             for at in [True, False]:
                 add([{"name": name, "class": c}], at, PAYLOADS[i % len(PAYLOADS)])
+    # stop while the producing (repeating) step executes: its last iteration's output reaches the exit handler and the retry
+    for k, pl in enumerate(PAYLOADS if tier != "quick" else PAYLOADS[:6]):
+        add([{"name": ["", "X"][k % 2], "class": CLASSES[k % len(CLASSES)]}], k % 2 == 0, pl, False, True)
     pairs = [(a, na, b, nb) for a in CLASSES for na in ["", "X"] for b in CLASSES for nb in ["", "Y"]]
     rnd.shuffle(pairs)
     for a, na, b, nb in pairs[:40 if tier == "quick" else 400]:
@@ -48,7 +51,7 @@ def run(prop, tier, seed, replay=None):
             # the same through the command layer of the real binary (start -p as the API's client spawns it, restart of the
             # running DAG, retry of the canceled run); without the two pinned scenarios of the open findings
             binary = vp.build_binary(os.path.join(work, "blackdagger"))
-            cli = [s for s in scs if not s["errNoise"]]
+            cli = [s for s in scs if not s["errNoise"] and not s.get("stop")]
             cli = cli[:70] if q else cli[:400]
             ncw = min(vp.NCPU, 8)
             for w in range(ncw):
@@ -71,6 +74,8 @@ def run(prop, tier, seed, replay=None):
                     for line in f:
                         if '"kind":"cli"' in line:
                             ncli += 1
+                        elif '"kind":"stop"' in line:
+                            nrun += 1
                         elif '"kind"' not in line:
                             line = '{"kind":"run",' + line.lstrip()[1:]
                             nrun += 1
@@ -89,7 +94,7 @@ def run(prop, tier, seed, replay=None):
                     continue
                 s = r["sc"]
                 bad_vars = sorted({b for p in r["probes"].values() for b in p["bad"]})
-                rep.violation({"clause": c, "errNoise": s["errNoise"], "positionalWithEquals": any(p["name"] == "" and p["class"] == "eq" for p in s["params"]),
+                rep.violation({"clause": c, "errNoise": s["errNoise"], "stop": bool(s.get("stop")), "positionalWithEquals": any(p["name"] == "" and p["class"] == "eq" for p in s["params"]),
                                "classes": sorted({p["class"] for p in s["params"]}), "onlyOutput": set(bad_vars) <= {"OUTV", "ARG_OUTV"}},
                               {"scenario": s, "cli": r.get("kind") == "cli", "rendered": r["rendered"], "recordedParams": r.get("recordedParams"), "probes": r["probes"]})
         rep.cov["tokenizer_drift"] = ndrift
@@ -105,6 +110,7 @@ def run(prop, tier, seed, replay=None):
                         "rule": "runs: 1 or 2 parameters, positional or named, values from 13 classes (bare, blanks, double quotes, '=', empty, UTF-8, backslashes, single quote, number, leading dashes, punctuation, a blank before '=', a quote before '='), "
                                 "given at start or as the DAG's default, x 13 output payload classes (blanks, padding to trim, newlines, quotes, '=', literal $VAR, backslashes, UTF-8, empty, 4096 and 70000 bytes); "
                                 "every run is started through the real loader + agent and then retried as cmd/retry.go does; consumers: adjacent step, exit handler, non-adjacent step and handler in the retry; "
+                                "stop runs: the producing step repeats and the run is stopped while its second iteration executes - the iteration's output must reach the exit handler and the retry; "
                                 "cli: the first scenarios again through the real binary: client.Start (start -p \"...\"), restart while running, retry of the canceled run; "
                                 "tokenizer: every string over {word char, blank, quote, equals, backslash} up to length %s through the real parser vs the TLA+ transcription" % ("6" if q else "8"),
                         "samples": samples, "exhaustive": False})
